@@ -1,4 +1,5 @@
 \* exhaustive (quick tier): both APIs, seekable or not, up to 2 tracks, up to 2 packets of sizes 1, 255, 255*255, 255*255+1
+\* and 0 (empty payload), valid and refused (over 120 ms, missing count byte) code-3 packets
 \* (every length around the boundaries is covered by the assumption LacingHolds of Ogg_MC.tla)
 CONSTANTS
   Impl = "current"
@@ -9,8 +10,10 @@ CONSTANTS
   MaxRandSize = 0
   MaxRandBig = 0
   TocBytes = {0, 99}
-  B1s = {3}
-  ChCfgs <- ChTwo
+  B1s = {3, 13}
+  Empties = TRUE
+  Bufs = {"fresh"}
+  ChCfgs = {"c2"}
   TagCfgs <- TagTwo
   Rates <- RatesOne
   Sample = FALSE
